@@ -99,3 +99,22 @@ func VerifH_C07_ParseBytes() {
 	vrt.Reach("c07.bytes.len" + strconv.Itoa(n))
 	checkParseOutcome(text, "c07.bytes")
 }
+
+// every way a text can end inside a token, string, comment or block: well-formed texts
+// cut at every byte position, optionally followed by up to two arbitrary bytes.
+var c07Texts = []string{
+	"module m {\n  namespace \"urn:m\"; // line comment\n  prefix m;\n  /* block\n comment */ leaf l {\n    type string;\n    description 'one' + \"two\\n   three \\\" \\\\\";\n  }\n}\n",
+	"submodule s { belongs-to m { prefix m; } x:ext \"a\"\n + 'b' { y:z; } container c { presence \"p;{\"; } }",
+	"a 'unterminated\n{ /* open",
+}
+
+// VerifH_C07_Truncations
+func VerifH_C07_Truncations() {
+	t := c07Texts[vrt.Choice("text", len(c07Texts))]
+	cut := vrt.Choice("cut", len(t)+1)
+	text := t[:cut]
+	extra := vrt.Choice("extra", vrt.Param("extra", 1)+1)
+	text += string(vrt.Bytes("x", extra))
+	vrt.Reach("c07.truncations")
+	checkParseOutcome(text, "c07.cut")
+}
